@@ -23,7 +23,7 @@ func init() {
 			"(R20.2) the Go-side brackets are ordered Before ≺ call ≺ After and unconditional in the four host-call arms and two trampoline arms of the compiler and in the interpreter's wrappers, and the interpreter body runner is only entered through the dispatcher that consults the listener; " +
 			"(R20.3) both recover paths notify Abort for every collected frame after the error is built, and the frame walks that feed Abort and the stack iterator are not cut at a constant number of frames (a genuine defect of this kind was found and fixed); " +
 			"(R20.4) listener tables are never written on a path reachable from a Close/Delete entry point; (R20.5) the compiler's stack iterator re-walks the native stack on every reset (no path skips the unwinder). " +
-			"(R20.6) what a cached compiled module captures of the listeners must be covered by the module identity – on this tree the engines store the listener objects while the identity hashes only their nil-ness: a second CompileModule of the same binary under another listener factory silently uses the first factory's listeners (demonstrated on both engines, recorded as two known findings). " +
+			"(R20.7) every StackIterator implementation returns from Function() a value that does not alias the iterator (a genuine compiler defect – the multi-listener adapter saw the outermost function for every frame – was found and fixed); (R20.8) the parallel frame caches of the multi-listener adapter are reset together; (R20.6) what a cached compiled module captures of the listeners must be covered by the module identity – on this tree the engines store the listener objects while the identity hashes only their nil-ness: a second CompileModule of the same binary under another listener factory silently uses the first factory's listeners (demonstrated on both engines, recorded as two known findings). " +
 			"NOT decided: the native return-address walk itself, nesting under unwinding, equality of event streams between engines, parameter/result values.",
 		Rules: []core.Rule{
 			{ID: "R20.1", Template: "T-MUSTPASS", Text: "before at entry; label-derived jump targets are return-block-checked with an after call; emitted returns are covered", Min: 6},
@@ -31,10 +31,14 @@ func init() {
 			{ID: "R20.3", Template: "T-SIBLING", Text: "Abort for every collected frame after the error is built; frame walks are not capped by a constant", Min: 5},
 			{ID: "R20.4", Template: "T-WHOWRITES", Text: "listener tables are not written on close paths", Min: 4},
 			{ID: "R20.5", Template: "T-MUSTPASS", Text: "stack iterator reset always re-walks the stack", Min: 1},
+			{ID: "R20.7", Template: "T-OWN", Text: "StackIterator.Function returns a value that does not alias the iterator (genuine compiler defect found and fixed)", Min: 2},
+			{ID: "R20.8", Template: "T-SIBLING", Text: "parallel frame caches of the multi-listener adapter are reset together", Min: 2},
 			{ID: "R20.6", Template: "T-SIBLING", Text: "listener objects captured by a cached compiled module are covered by the module identity (known finding: only nil-ness is hashed)", Min: 2},
 		},
 		Run: runC20,
 		Controls: []core.Control{
+			{Name: "function-returns-the-iterator", File: "internal/engine/wazevo/call_engine.go", Old: "\treturn internalFunction{def: si.currentDef, eng: si.eng}\n", New: "\treturn si\n", Old2: "// internalFunction implements experimental.InternalFunction.", New2: "func (si *stackIterator) Definition() api.FunctionDefinition { return si.currentDef }\n\nfunc (si *stackIterator) SourceOffsetForPC(pc experimental.ProgramCounter) uint64 { return 0 }\n\n// internalFunction implements experimental.InternalFunction.", Rule: "R20.7", Substr: "wazevo"},
+			{Name: "adapter-resets-only-pcs", File: "experimental/listener.go", Old: "\t\tsi.pcs = si.pcs[:0]\n\t\tsi.fns = si.fns[:0]\n", New: "\t\tsi.pcs = si.pcs[:0]\n", Rule: "R20.8", Substr: "fns"},
 			{Name: "br-table-plain-jump", File: "internal/engine/wazevo/frontend/lower.go", Old: "\t\tbuilder.SetCurrentBlock(trampoline)\n\t\tc.insertJumpToBlock(args, targetBlk)\n", New: "\t\tbuilder.SetCurrentBlock(trampoline)\n\t\tbuilder.AllocateInstruction().AsJump(args, targetBlk).Insert(builder)\n", Rule: "R20.1", Substr: "lowerBrTable"},
 			{Name: "return-without-after", File: "internal/engine/wazevo/frontend/lower.go", Old: "\t\tif c.needListener {\n\t\t\tc.callListenerAfter()\n\t\t}\n\n\t\tc.lowerReturn(builder)\n", New: "\t\tc.lowerReturn(builder)\n", Rule: "R20.1", Substr: "Return"},
 			{Name: "no-before-at-entry", File: "internal/engine/wazevo/frontend/lower.go", Old: "\tif c.needListener {\n\t\tc.callListenerBefore()\n\t}\n", New: "", Rule: "R20.1", Substr: "before"},
@@ -57,6 +61,7 @@ func runC20(c *core.Ctx) {
 	checkListenerTables(c)
 	checkIteratorReset(c)
 	checkListenerIdentity(c)
+	checkIteratorValues(c)
 }
 
 // ---------------------------------------------------------------------------------------------------------
@@ -983,4 +988,120 @@ func checkListenerIdentity(c *core.Ctx) {
 			"the identity hash takes the listener values",
 			"the engine stores the listener objects in the compiled module it caches by module ID ("+strings.Join(captures, "; ")+") while AssignModuleID hashes only whether each listener is nil: a second CompileModule of the same binary with another listener factory hits the cache and its own listeners never receive an event (the first factory's listeners receive them instead)")
 	}
+}
+
+// ---------------------------------------------------------------------------------------------------------
+// R20.7 StackIterator.Function never returns the iterator itself; R20.8 parallel frame caches are reset together
+
+func checkIteratorValues(c *core.Ctx) {
+	ep := c.Pkg("experimental")
+	if ep == nil {
+		return
+	}
+	io := ep.Types.Scope().Lookup("StackIterator")
+	if io == nil {
+		c.Undecided("R20.7", "experimental.StackIterator", 0, "not found")
+		return
+	}
+	iface, _ := io.Type().Underlying().(*types.Interface)
+	n := 0
+	for _, p := range c.WazeroPkgs() {
+		info := p.TypesInfo
+		core.AllFuncDecls(p, func(fd *ast.FuncDecl) {
+			if fd.Name.Name != "Function" || fd.Recv == nil || len(fd.Recv.List) != 1 || len(fd.Recv.List[0].Names) != 1 {
+				return
+			}
+			recv := info.Defs[fd.Recv.List[0].Names[0]]
+			if recv == nil || iface == nil || !types.Implements(recv.Type(), iface) {
+				return
+			}
+			n++
+			var bad []string
+			ast.Inspect(fd.Body, func(x ast.Node) bool {
+				r, ok := x.(*ast.ReturnStmt)
+				if !ok || len(r.Results) != 1 {
+					return true
+				}
+				if id, ok := ast.Unparen(r.Results[0]).(*ast.Ident); ok && info.Uses[id] == recv {
+					bad = append(bad, "returns the iterator itself at "+c.Pos(r.Pos()))
+				}
+				return true
+			})
+			c.Check(len(bad) == 0, "R20.7", "StackIterator.Function of "+core.FuncName(p, fd)+" does not alias the iterator", fd.Pos(), "returns a separate value",
+				strings.Join(bad, "; ")+": a listener that keeps the InternalFunction of each frame while it continues to iterate (the MultiFunctionListenerFactory adapter does) sees the last frame's function for every frame")
+		})
+	}
+	if n < 2 {
+		c.Undecided("R20.7", "StackIterator implementations", 0, fmt.Sprintf("only %d found", n))
+	}
+	// R20.8: in the experimental package, slice fields of one struct that are appended side by side are truncated together
+	info := ep.TypesInfo
+	groups := map[*types.Var]map[*types.Var]bool{} // field → fields appended in the same statement list
+	isAppendTo := func(s ast.Stmt) *types.Var {
+		as, ok := s.(*ast.AssignStmt)
+		if !ok || len(as.Lhs) != 1 || len(as.Rhs) != 1 {
+			return nil
+		}
+		call, ok := as.Rhs[0].(*ast.CallExpr)
+		if !ok || !core.IsBuiltin(info, call, "append") {
+			return nil
+		}
+		return core.FieldOf(info, as.Lhs[0])
+	}
+	core.AllFuncDecls(ep, func(fd *ast.FuncDecl) {
+		ast.Inspect(fd.Body, func(x ast.Node) bool {
+			blk, ok := x.(*ast.BlockStmt)
+			if !ok {
+				return true
+			}
+			var fs []*types.Var
+			for _, s := range blk.List {
+				if f := isAppendTo(s); f != nil {
+					fs = append(fs, f)
+				}
+			}
+			for _, a := range fs {
+				for _, b := range fs {
+					if a != b {
+						if groups[a] == nil {
+							groups[a] = map[*types.Var]bool{}
+						}
+						groups[a][b] = true
+					}
+				}
+			}
+			return true
+		})
+	})
+	m := 0
+	core.AllFuncDecls(ep, func(fd *ast.FuncDecl) {
+		trunc := map[*types.Var]token.Pos{}
+		ast.Inspect(fd.Body, func(x ast.Node) bool {
+			as, ok := x.(*ast.AssignStmt)
+			if !ok || len(as.Lhs) != len(as.Rhs) {
+				return true
+			}
+			for i, l := range as.Lhs {
+				f := core.FieldOf(info, l)
+				if f == nil {
+					continue
+				}
+				if se, ok := ast.Unparen(as.Rhs[i]).(*ast.SliceExpr); ok && se.Low == nil && se.High != nil {
+					if v, ok := core.ConstVal(info, se.High); ok && v == 0 && core.FieldOf(info, se.X) == f {
+						trunc[f] = as.Pos()
+					}
+				}
+			}
+			return true
+		})
+		for f, pos := range trunc {
+			for sib := range groups[f] {
+				m++
+				_, ok := trunc[sib]
+				c.Check(ok, "R20.8", fmt.Sprintf("%s resets %s together with its parallel cache %s", core.FuncName(ep, fd), f.Name(), sib.Name()), pos, "both truncated in the same function",
+					fmt.Sprintf("%s is truncated but %s, which is appended side by side with it, is not: from the second invocation on the adapter pairs the new program counters with the function definitions of the first call chain", f.Name(), sib.Name()))
+			}
+		}
+	})
+	c.Count("parallel_cache_resets", m)
 }
